@@ -39,6 +39,9 @@ pub struct PointCfg {
     pub svar: u8,
     /// event variation number
     pub evar: u8,
+    /// analog inputs: the configured dead-band (an integer, so every g34 variation carries it exactly)
+    #[serde(default)]
+    pub deadband: u16,
 }
 
 #[derive(Clone, Debug, Serialize, Deserialize)]
@@ -65,6 +68,9 @@ pub struct OutCfg {
     pub close_mode: bool,
     pub decode_all: bool,
     pub class_zero_octet_strings: bool,
+    /// what the application answers to a restart request: 0 = one second, 1 = 500 milliseconds, 2 = not supported
+    #[serde(default)]
+    pub restart_answer: u8,
 }
 
 impl OutCfg {
@@ -91,6 +97,7 @@ impl OutCfg {
             close_mode: false,
             decode_all: false,
             class_zero_octet_strings: true,
+            restart_answer: 0,
         }
     }
 
@@ -519,6 +526,56 @@ pub struct UpdateOp {
     pub update_static: bool,
     /// 0 detect, 1 force, 2 suppress
     pub event_mode: u8,
+    /// `Database::update_flags`: flags and time change, the value stays what it is. In recorded timelines `value`
+    /// holds the value the harness's own `StaticTracker` says the point had (the library is not asked).
+    #[serde(default)]
+    pub flags_only: bool,
+}
+
+/// the harness's own idea of every point's current static value, kept by the drivers in application order, so that a
+/// flags-only update can be logged with the value it must carry
+#[derive(Default)]
+pub struct StaticTracker {
+    map: std::collections::BTreeMap<(PointType, u16), f64>,
+}
+
+impl StaticTracker {
+    pub fn new(cfg: &OutCfg) -> Self {
+        let mut map = std::collections::BTreeMap::new();
+        for p in &cfg.points {
+            map.entry((p.ptype, p.index))
+                .or_insert(if p.ptype == PointType::DoubleBit { 3.0 } else { 0.0 });
+        }
+        Self { map }
+    }
+
+    /// apply `op` to the real database; returns the effective operation (value filled in for flags-only updates)
+    pub fn apply(&mut self, op: &UpdateOp, db: &mut Database) -> (UpdateOp, UpdateInfo) {
+        let mut eff = op.clone();
+        let key = (op.ptype, op.index);
+        if op.flags_only {
+            if let Some(v) = self.map.get(&key) {
+                eff.value = *v;
+            }
+        }
+        let info = op.apply(db);
+        if op.flags_only {
+            if let Some(core) = crate::verif::kernel::current() {
+                core.count(
+                    match info {
+                        UpdateInfo::NoPoint => "probe.update_flags_no_point",
+                        UpdateInfo::NoEvent => "probe.update_flags_no_event",
+                        _ => "probe.update_flags_event",
+                    },
+                    1,
+                );
+            }
+        }
+        if eff.update_static && self.map.contains_key(&key) && !matches!(info, UpdateInfo::NoPoint) {
+            self.map.insert(key, eff.value);
+        }
+        (eff, info)
+    }
 }
 
 impl UpdateOp {
@@ -547,6 +604,19 @@ impl UpdateOp {
         let flags = Flags::new(self.flags);
         let time = self.time();
         let opts = self.options();
+        if self.flags_only {
+            let t = match self.ptype {
+                PointType::Binary => UpdateFlagsType::BinaryInput,
+                PointType::DoubleBit => UpdateFlagsType::DoubleBitBinaryInput,
+                PointType::BinaryOutputStatus => UpdateFlagsType::BinaryOutputStatus,
+                PointType::Counter => UpdateFlagsType::Counter,
+                PointType::FrozenCounter => UpdateFlagsType::FrozenCounter,
+                PointType::Analog => UpdateFlagsType::AnalogInput,
+                PointType::AnalogOutputStatus => UpdateFlagsType::AnalogOutputStatus,
+                PointType::OctetString => return UpdateInfo::NoPoint,
+            };
+            return db.update_flags(self.index, t, flags, time, opts);
+        }
         match self.ptype {
             PointType::Binary => db.update2(
                 self.index,
@@ -742,7 +812,7 @@ pub fn add_point(db: &mut Database, p: &PointCfg) -> bool {
                     7 => EventAnalogInputVariation::Group32Var7,
                     _ => EventAnalogInputVariation::Group32Var8,
                 },
-                0.0,
+                p.deadband as f64,
             ),
         ),
         PointType::AnalogOutputStatus => db.add(
@@ -849,6 +919,11 @@ pub struct OutNode {
 impl OutNode {
     pub fn start(sim: &Sim, cfg: &OutCfg, ctrl: CtrlAnswers) -> OutNode {
         let rec: Rec = Arc::new(Mutex::new(Recorder::new(ctrl)));
+        rec.lock().unwrap().restart_delay = match cfg.restart_answer {
+            0 => Some(RestartDelay::Seconds(1)),
+            1 => Some(RestartDelay::Milliseconds(500)),
+            _ => None,
+        };
         let config = cfg.to_config();
         let modes = LinkModes {
             error_mode: if cfg.close_mode {
